@@ -253,6 +253,16 @@ def runGA (ts : List String) : Option (List (List Float)) :=
       let f := if ts0 == "rbfgradm" then Gen.KernelAxes.rbfGradMatrix (α := Float) else Gen.KernelAxes.matern52GradMatrix
       some ((List.range (n1 * (d + 1))).map fun r => (List.range (n2 * (d + 1))).map fun c =>
         f Scalar.sqDist Scalar.dist n1 n2 d X1 X2 ls r c)
+  | "mt" :: ts | "mtdiag" :: ts => do
+      -- MultitaskKernel: <data kern> <KT> <X1> <X2>; the generated Kronecker layout (full matrix / 1 × nT diagonal)
+      let (k, ts) ← pKern (α := Float) ts; let (KT, ts) ← pMat ts
+      let (X1, ts) ← pMat ts; let (X2, _) ← pMat ts
+      let d := (X1.head?.map List.length).getD 0
+      let (n1, n2, T) := (X1.length, X2.length, KT.length)
+      if ts0 == "mt" then
+        some ((List.range (n1 * T)).map fun r => (List.range (n2 * T)).map fun c =>
+          Gen.KernelAxes.multitaskMatrix k.eval n1 n2 d T X1 X2 KT r c)
+      else some [(List.range (n1 * T)).map fun r => Gen.KernelAxes.multitaskDiag k.eval n1 n2 d T X1 X2 KT r]
   | "cyldiag" :: ts => do
       let (k, ts) ← pKern (α := Float) ts; let (w, ts) ← pVec ts; let (al, ts) ← pNum ts; let (be, ts) ← pNum ts
       let (e, ts) ← pNum ts
